@@ -173,19 +173,58 @@ def rule_b(repo, res):
     res.info["yields_checked"] = n_y
 
 
-def rule_c(repo, res):
+def level_filter_rule(repo, res, rid):
+    """iter_sequence_headers: the column dictionaries handed to the option
+    generators come from the level table filtered by the known values *and the
+    candidate base format*, and that same base format is the one whose defaults
+    are used and which is written into the header."""
     m, fn = repo.func(enc_tables.SH + ":iter_sequence_headers")
     where = "%s:iter_sequence_headers" % m.rel
     ok = False
+    detail = "filter_constraint_table(LEVEL_CONSTRAINTS, dict(<known values>, base_video_format=<candidate>)) not found"
     for n in ast.walk(fn):
         if isinstance(n, ast.Assign) and isinstance(n.value, ast.Call) and dotted(n.value.func) == "filter_constraint_table" and len(n.value.args) == 2:
             a0, a1 = n.value.args
-            if dotted(a0) == "LEVEL_CONSTRAINTS" and isinstance(a1, ast.Call) and dotted(a1.func) == "dict" and a1.args and dotted(a1.args[0]) == "constrained_values" and any(k.arg == "base_video_format" for k in a1.keywords):
-                var = dotted(n.targets[0])
-                ok = any(isinstance(l, ast.For) and dotted(l.iter) == var for l in ast.walk(fn))
-    res.check(ok, "C16.c", "table:filtered-before-columns", where, "the level table must be filtered with constrained_values plus base_video_format, and the column loop must run over the filtered table", by="filter_constraint_table(LEVEL_CONSTRAINTS, dict(constrained_values, base_video_format=...))")
-    cv = any(isinstance(n, ast.Assign) and dotted(n.targets[0]) == "constrained_values" and isinstance(n.value, ast.Call) and dotted(n.value.func) == "codec_features_to_trivial_level_constraints" for n in ast.walk(fn))
-    res.check(cv, "C16.c", "table:known-values", where, "constrained_values must come from codec_features_to_trivial_level_constraints(codec_features)", by="derived from the codec features")
+            if not (dotted(a0) == "LEVEL_CONSTRAINTS" and isinstance(a1, ast.Call) and dotted(a1.func) == "dict" and a1.args and isinstance(a1.args[0], ast.Name)):
+                detail = "the table is filtered with %s, not with dict(<known values>, base_video_format=<candidate>): columns written for another base format are used for this one" % short(a1, 60)
+                continue
+            kw = {k.arg: k.value for k in a1.keywords}
+            bvf = kw.get("base_video_format")
+            if not isinstance(bvf, ast.Name):
+                detail = "base_video_format is not part of the filter: columns written for another base format are used for this one"
+                continue
+            known = a1.args[0].id
+            kd = [x for x in ast.walk(fn) if isinstance(x, ast.Assign) and dotted(x.targets[0]) == known]
+            known_ok = len(kd) == 1 and isinstance(kd[0].value, ast.Call) and dotted(kd[0].value.func) == "codec_features_to_trivial_level_constraints"
+            var = dotted(n.targets[0])
+            # the candidate is the variable of an enclosing loop, and the filter is recomputed inside it
+            loop = None
+            p = getattr(n, "_parent", None)
+            while p is not None and p is not fn:
+                if isinstance(p, ast.For) and isinstance(p.target, ast.Name) and p.target.id == bvf.id:
+                    loop = p
+                p = getattr(p, "_parent", None)
+            if loop is None:
+                detail = "the filter is not recomputed for each candidate base format"
+                continue
+            cols = [l for l in ast.walk(loop) if isinstance(l, ast.For) and dotted(l.iter) == var]
+            defaults = [c for c in ast.walk(loop) if isinstance(c, ast.Call) and dotted(c.func) == "set_source_defaults" and c.args and dotted(c.args[0]) == bvf.id]
+            hdr = [c for c in ast.walk(loop) if isinstance(c, ast.Call) and dotted(c.func) == "SequenceHeader" and any(k.arg == "base_video_format" and dotted(k.value) == bvf.id for k in c.keywords)]
+            opts = []
+            for l in cols:
+                for c in ast.walk(l):
+                    if isinstance(c, ast.Call) and dotted(c.func) == "iter_source_parameter_options" and len(c.args) == 3 and dotted(c.args[2]) == dotted(l.target):
+                        opts.append(c)
+            ok = known_ok and bool(cols) and bool(defaults) and bool(hdr) and bool(opts)
+            if not ok:
+                detail = "known values from codec_features_to_trivial_level_constraints: %s; column loop over the filtered table: %s; defaults of the same candidate: %s; header carries the same candidate: %s; options generated against the column: %s" % (known_ok, bool(cols), bool(defaults), bool(hdr), bool(opts))
+    res.check(ok, rid, "table:filtered-before-columns", where, detail, by="filter_constraint_table(LEVEL_CONSTRAINTS, dict(known, base_video_format=candidate)) inside the candidate loop; same candidate for defaults and header")
+
+
+def rule_c(repo, res):
+    m, fn = repo.func(enc_tables.SH + ":iter_sequence_headers")
+    where = "%s:iter_sequence_headers" % m.rel
+    level_filter_rule(repo, res, "C16.c")
     rm, rfn = repo.func(enc_tables.SH + ":rank_allowed_base_video_format_similarity")
     ok = any(isinstance(n, ast.Call) and dotted(n.func) == "allowed_values_for" and const_str(n.args[1]) == "base_video_format" and dotted(n.args[0]) == "LEVEL_CONSTRAINTS" and dotted(n.args[2]) == "constrained_values" for n in ast.walk(rfn))
     res.check(ok, "C16.c", "base-format:from-allowed-values", "%s:%s" % (rm.rel, rfn.name), "candidate base formats must be the level's allowed values given the known values", by="allowed_values_for(LEVEL_CONSTRAINTS, 'base_video_format', constrained_values, ...)")
